@@ -2,7 +2,12 @@
 from props.common_prog import judge_prog
 
 THEOREM_MODULES = ["Hcl.Theorems.C12"]
-THEOREMS = {"Hcl.Theorems.C12": ["C12_loop_verdict_order_independent", "C12_values_schedule_independent", "IsCycle_congr",
+THEOREMS = {"Hcl.Theorems.C12": ["C12_verdict_order_independent", "C12_rejected_on_every_run", "C12_constants_order_independent",
+                                 "C12_accepted", "C12_cycle", "C12_run", "C12_report",
+                                 "C12_loop_verdict_order_independent", "C12_values_schedule_independent",
+                                 "Program_new_verdict", "resolveConstants_order_independent", "assignmentsToActions_verdict",
+                                 "assignmentsToActions_order_independent", "runLoop_stateEq", "execAction_congr",
+                                 "check_congr", "fixMux_congr", "canonConsts_ext", "ordersOK_rev",
                                  "C01_order_independent", "settled_unique", "C10_cycle_iff"]}
 
 RULE = ("S-PROG (all profiles) and the fault/loop-injection streams with every program built and run 8 times in-process, "
